@@ -136,6 +136,14 @@ VARIANTS = [
     B("setitem-error-formats-bare-key", ["C13"], (GB, 'raise LoadError("invalid list index %r" % (key,))', 'raise LoadError("invalid list index %r" % key)')),
     P("setitem-error-fstring", ["C13"], (GB, 'raise LoadError("invalid list index %r" % (key,))', 'raise LoadError(f"invalid list index {key!r}")')),
     B("shutdown-flag-sampled-before-lock", ["C09", "C11"], (GB, "            # we are concurrent with trigger_shutdown and spawn\n            with self._running_lock:", "            shuttingdown = self._shuttingdown\n            with self._running_lock:"), (GB, "                    if self._shuttingdown:\n                        break\n                    primary_thread_task_ready.clear()", "                    if shuttingdown:\n                        break\n                    primary_thread_task_ready.clear()")),
+    B("termkill-pairs-late-bound-lambda", ["C05", "C16"], (MU, "(partial(join_wait, gw), partial(kill, gw))", "(lambda: join_wait(gw), lambda: kill(gw))")),
+    P("termkill-pairs-default-arg-lambda", ["C05", "C16"], (MU, "(partial(join_wait, gw), partial(kill, gw))", "(lambda gw=gw: join_wait(gw), lambda gw=gw: kill(gw))")),
+    B("register-tests-object-not-id", ["C20"], (MU, "        assert gateway.id not in self\n", "        assert gateway not in self\n")),
+    P("register-tests-id-with-if", ["C20"], (MU, "        assert gateway.id not in self\n", "        if gateway.id in self:\n            raise ValueError(f\"already have gateway with id {gateway.id!r}\")\n")),
+    B("reader-eof-closes-channel-directly", ["C19"], (GB, "        except EOFError:\n            self.close()\n        if self._buffer is None:", "        except EOFError:\n            self.channel.close()\n        if self._buffer is None:")),
+    P("reader-eof-inlined-proxyclose", ["C19"], (GB, "        except EOFError:\n            self.close()\n        if self._buffer is None:", "        except EOFError:\n            if self._proxyclose:\n                self.channel.close()\n        if self._buffer is None:")),
+    B("linkbase-prefix-without-separator", ["C17"], (RS, "            and not relpath.startswith(os.pardir + os.sep)", "            and not relpath.startswith(os.pardir)")),
+    P("linkbase-first-component-test", ["C17"], (RS, "            and not relpath.startswith(os.pardir + os.sep)", "            and relpath.split(os.sep)[0] != os.pardir")),
     B("ack-tag-renamed-remote-only", ["C17"], (RR, 'channel.send(("ack", path[len(destdir) + 1 :]))', 'channel.send(("acked", path[len(destdir) + 1 :]))')),
     B("stat-order-sender-only", ["C17"], (RS, "self._broadcast((st.st_mode, st.st_mtime, st.st_size))", "self._broadcast((st.st_mtime, st.st_mode, st.st_size))")),
     B("delete-guard-removed", ["C17"], (RR, '            if options.get("delete"):\n                for othername in os.listdir(path):', "            if True:\n                for othername in os.listdir(path):")),
